@@ -93,7 +93,7 @@ vars == <<l, ob, pre, der, dpre, h, hp>>
 IsReset(e) == e.op = "reset"
 
 H0 == [seen |-> {}, viewAt |-> {}, clean |-> <<>>, exported |-> <<>>, keysha |-> <<>>,
-       vals |-> <<>>, damaged |-> {}, failed |-> {}, preobs |-> [none |-> TRUE]]
+       vals |-> <<>>, damaged |-> {}, failed |-> {}, resolved |-> FALSE, preobs |-> [none |-> TRUE]]
 
 Quiescent(o, d) == d.has /\ ~o.staging /\ d.applied = d.ccn
 
@@ -149,7 +149,8 @@ Next ==
             /\ hp' = HX
        ELSE LET r == e.r
                 d == Derive(e.obs)
-                hd == [h EXCEPT !.damaged = IF e.op = "Damage" THEN @ \cup {r} ELSE @, !.preobs = ob[r]]
+                hd == [h EXCEPT !.damaged = IF e.op = "Damage" THEN @ \cup {r} ELSE @, !.preobs = ob[r],
+                                !.resolved = @ \/ (e.op = "Resolve" /\ e.res.kind = "ok")]
             IN
             /\ ob' = [ob EXCEPT ![r] = e.obs]
             /\ pre' = ob[r]
@@ -571,6 +572,16 @@ X_SnapshotStep_C ==
 X_ExportPure_A == Op("Export") /\ OkRes /\ Has2
 X_ExportPure_C == Post = pre
 
+\* C02: a held-back block is invisible -- heads and committed trees are those of the applied blocks alone
+C02_HeldBackInvisible_A == Acting /\ HasObs(Post) /\ ~Damaged /\ DPost.applied # Core!Names(Core!Blocks(DPost.items))
+C02_HeldBackInvisible_C == Rng(Post.heads) = Core!HeadsOf(DPost.ablocks) /\ TreeFromBlocksOn(Post, DPost)
+\* C07: once committed, a resolution propagates and independent resolutions converge (C01's predicates on the
+\* histories in which something was resolved)
+C07_Propagates_A == h.resolved /\ C01_SyncReaches_A
+C07_Propagates_C == C01_SyncReaches_C
+C07_ResolvedConverge_A == h.resolved /\ C01_SameItemsSameView_A
+C07_ResolvedConverge_C == C01_SameItemsSameView_C
+
 -----------------------------------------------------------------------------
 (* Evaluation: count antecedents, print violations *)
 Chk(k, name, a, c) ==
@@ -587,7 +598,8 @@ Names == <<"C08_Returns", "C05_WinnerRule", "C05_TreeFromBlocks", "C02_AppliedCo
            "C10_NoAlteredContent", "C12_NoDocChange", "C14_Travel", "C14_Retrievable", "C15_CommitCleans",
            "C15_Guards", "C15_Unstage", "C15_ExportReplay", "C19_Canonical", "C19_LeafOrderTotal", "C09_RetryDurable", "D_FrameStorage", "D_FrameMemory",
            "X_UpdateStep", "X_ResolveStep", "X_ResolveRefused", "X_MeldStep", "X_UnstageStep", "X_CommitStep",
-           "C15_StageComplete", "X_ObjStep", "X_SnapshotStep", "X_ExportPure">>
+           "C15_StageComplete", "X_ObjStep", "X_SnapshotStep", "X_ExportPure",
+           "C02_HeldBackInvisible", "C07_Propagates", "C07_ResolvedConverge">>
 
 AllChecks ==
     /\ Chk(1, Names[1], C08_Returns_A, C08_Returns_C)
@@ -641,6 +653,9 @@ AllChecks ==
     /\ Chk(49, Names[49], X_ObjStep_A, X_ObjStep_C)
     /\ Chk(50, Names[50], X_SnapshotStep_A, X_SnapshotStep_C)
     /\ Chk(51, Names[51], X_ExportPure_A, X_ExportPure_C)
+    /\ Chk(52, Names[52], C02_HeldBackInvisible_A, C02_HeldBackInvisible_C)
+    /\ Chk(53, Names[53], C07_Propagates_A, C07_Propagates_C)
+    /\ Chk(54, Names[54], C07_ResolvedConverge_A, C07_ResolvedConverge_C)
 
 \* the same predicates as individually named invariants (MeldaTraceStrict.cfg)
 C08_Returns == C08_Returns_A => C08_Returns_C
